@@ -169,7 +169,7 @@ func genSpecs(r *hx.Rng, c *dagCase, k int) {
 			case 1:
 				sb.WriteString("~")
 			case 2:
-				fmt.Fprintf(&sb, "^%d", r.Range(1, 4))
+				fmt.Fprintf(&sb, "^%d", hx.Pick(r, []int{1, 2, 2, 2, 3}))
 			case 3:
 				fmt.Fprintf(&sb, "~%d", r.Range(0, 5))
 			case 4:
